@@ -87,3 +87,12 @@ Definition run_c09_allocators (n same : sexp) : outcome :=
       mkOut (chk same "prop C09 equality and ordering do not depend on the allocator") (Z.to_nat n) 1 []
   | _, _ => out_bad "c09.allocators"
   end.
+
+(* C10 *)
+Definition run_c10 (nw nops same : sexp) : outcome :=
+  match dec_int nw, dec_int nops, dec_bool same with
+  | Some nw, Some nops, Some same =>
+      mkOut (chk same "prop C10 every concurrent worker got the result it gets running alone")
+            (Z.to_nat nops) (if Z.leb 2 nw then Z.to_nat nw else 0) []
+  | _, _, _ => out_bad "c10.run"
+  end.
